@@ -156,12 +156,13 @@ def compare(case, obs, model, probes):
             for task, kinds in want.items():
                 e = peer_end(obs, task, cinc)
                 if e is None and task == "C" and case["cfg"].get("tcp_capacity", 64) < 3:
-                    continue      # known finding WriterBlockedFullWindow: C is blocked in write_all
+                    continue      # known finding WriterBlockedFullWindow (what fix df5434b left of it): data in flight at the crash
                 if e is None:
                     return "event %d (%s n0): model sends %s for the stream of client task %s, the task never saw its stream end" % (k, name, kinds, task)
                 if e[2] < k:
                     continue      # ended before the call for another reason
-                got = "rst" if e[0] == "ConnectionReset" else ("fin" if e[0] in ("eof", "UnexpectedEof") else e[0])
+                # a writer sees the reset as BrokenPipe (the socket entry is gone), a reader as ConnectionReset
+                got = "rst" if e[0] in ("ConnectionReset", "BrokenPipe") else ("fin" if e[0] in ("eof", "UnexpectedEof") else e[0])
                 if kinds[0] != got:
                     return "event %d (%s n0): client task %s saw %s, model's first message for its stream is %s" % (k, name, task, e[0], kinds[0])
     return None
